@@ -40,6 +40,8 @@ CLAIMED = {
          "The 'for all sizes' part of the property is a pure function of its inputs: it is sampled (0-300 candidates), not proved; the simulator contributes cross-replica agreement under different map seeds, restore after restart, and key delivery under message loss.", "Users, gossip transport and the consensus loop are simulated; identities allocated in genesis have no public key in the state, so key delivery is judged for identities created by invitation + activation.", "3 C16"),
  "C17": ("exploration", "deterministic simulation of whole validation ceremonies: replicas differ in map seed, zone, clock skew, arrival of transactions / keys, restarts inside every phase, absence with catch-up from blocks only, first evaluation at proposal vs validation vs insertion (cache hit), competing block at the finishing height validated first; oracle: every replica accepts the block that finishes the validation (equal roots), equal captured epoch results, and per-identity rules judged from on-chain facts only",
          "Decision-boundary score tuples are sampled through drawn user accuracies, not enumerated; 'missed the session' is taken in its narrowest on-chain sense; validations in which nobody is validated (the protocol's fail-safe keeps every identity) are excluded from the per-identity rules.", "Users are simulated (answers against a hidden truth per flip, through the node's own SubmitShortAnswers / SubmitLongAnswers); gossip and the consensus loop are simulated; three goroutines that block on real channels or tickers are replaced by their bodies run after every block.", "3 C17"),
+ "C18": ("exploration", "seeded value generation observed at the codecs (zero / nil optionals, maximal integers, empty and long byte strings for ~50 wire and storage types: encode, decode, re-encode, then every exported leaf field changed in turn must change the encoding and, for the six signed types, the recovered signer) plus seam taps over simulated ledger runs with contracts (blocks, transactions, certificates, receipts, identity diffs as they cross the simulated wire, and every raw value of the state and identity trees on the simulated disk)",
+         "The weakest use of the technique in this submission and labelled so: the quantifier is over inputs; the simulator contributes only in-context values. Fields that are not encoded on the pinned tree are listed in c18_baseline.json (one legacy field); whether every behaviour-relevant field is encoded is not decided here.", "Part (b) uses the ledger scenario's stubs.", "3 C18"),
  "C19": ("exploration", "seeded request-shape x transport x life-cycle matrix against the real rpc.Server with a probe service (real goroutines, order-insensitive oracle; no simulated scheduler: the gate cannot depend on schedules)",
          "Low-leverage use of the technique, stated as such: seeded generation of exchanges over in-memory transports plus a deterministic life-cycle probe (request sent to the initial endpoint at the DatabaseInitEvent of node.NewNodeWithInjections).", "In-memory transports (httptest recorder, net.Pipe) instead of sockets for the component part; the life-cycle part uses a real localhost listener and abandons node construction at the content-store stub.", "3 C19"),
  "C20": ("exploration", "deterministic simulation: peers as tasks announcing to the real PushPullManager/holder/tracker, tracker loop + gc as tasks on the virtual clock, go-cache on the virtual clock, responder with drawn latencies; pull-request history rules, bounded liveness after announcements stop, drain of internal sizes",
